@@ -29,3 +29,7 @@ def run(chk, tier):
         # R01.6 what the accept closure gets from match_inputs is the stored matcher's own verdict on this call's inputs
         from props.c06 import match_inputs
         match_inputs(chk, F, 'R01.6', cfg)
+        # R01.7 'patterns of other methods never influence the answer and are never counted as matched': answering a call runs no user code
+        # besides the matchers and the answer - in particular no Debug impl of an argument (which may call back into the mock and be
+        # counted against another method's patterns); arguments are rendered on error paths only (shared with C05 R05.7)
+        E.lazy_rendering(chk, F, 'R01.7', cfg)
